@@ -84,12 +84,15 @@ func (b *Blockstore) Has(ctx context.Context, cid cid.Cid) (bool, error) {
 	return has, nil
 }
 
+// Put is a no-op: the Blockstore is a read-only view over the EDS store, while the bitswap getter
+// hands fetched sample blocks to whatever blockstore the node wires it to.
 func (b *Blockstore) Put(context.Context, blocks.Block) error {
-	panic("not implemented")
+	return nil
 }
 
+// PutMany is a no-op, see Put.
 func (b *Blockstore) PutMany(context.Context, []blocks.Block) error {
-	panic("not implemented")
+	return nil
 }
 
 func (b *Blockstore) DeleteBlock(context.Context, cid.Cid) error {
